@@ -606,6 +606,14 @@ class P(Prop):
         return {"ops": res, "dict": sorted([int(e[0]), int(e[1]), num(e[2])] for e in entries)}
 
     def compare(self, case, impl_out, model_out):
+        """exact agreement with the model, except where the property leaves freedom — there the implementation's answer is
+        validated by the oracle instead (a different but legal tie-break must not be an alarm):
+          * several optimal walks: another optimal route (same label);
+          * a path requested for a node the search did not run to (stopped at another target, or cut-off below the node's
+            distance): nothing is required but that a returned path be a real route weighing its label (tentative labels
+            depend on the order in which equal labels are popped);
+          * shortest_distance beyond the cut-off: a tentative label;
+          * output_dict of a search stopped at a target: which nodes at the target's distance were recorded before it."""
         if "err" in impl_out:
             return None if impl_out["err"] == "err:Skipped" else "implementation failed: %s" % impl_out["err"]
         a, b = impl_out["ops"], model_out["ops"]
@@ -613,40 +621,77 @@ class P(Prop):
             return "impl has %d results, model %d" % (len(a), len(b))
         n = case["n"]
         ops = ops_of(case)
-        edges = d = None
-        last = None
         fl = bool(case.get("float"))
+        memo = {}
+
+        def dist():
+            if "d" not in memo:
+                memo["e"] = nc.expand(case)
+                memo["d"] = nc.floyd_warshall(n, memo["e"])
+            return memo["e"], memo["d"]
+        last = None
         for k, (op, x, y) in enumerate(zip(ops, a, b)):
+            bad = "op %d %s: impl=%s model=%s" % (k, op, x, y)
             if op[0] != "B":
                 last = (idx(op[1]), None if op[2] == "-" else idx(op[2]), cutval(op[3], fl))
             if "p" not in x or "p" not in y:
-                if x != y:
-                    return "op %d %s: impl=%s model=%s" % (k, op, x, y)
-                continue
+                if x == y:
+                    continue
+                if op[0] == "D" and x.keys() == y.keys():
+                    edges, d = dist()
+                    s0, t0, c0 = last
+                    if "val" in x:           # free only beyond the cut-off
+                        if d[s0][t0] is not None and not within(d[s0][t0], c0, fl) and x["val"] != "none":
+                            continue
+                    elif len(x["vals"]) == len(y["vals"]) == n:
+                        order = eff_order(case)
+                        if all(xv == yv or (d[s0][v] is not None and not within(d[s0][v], c0, fl)) for v, xv, yv in zip(order, x["vals"], y["vals"])):
+                            continue
+                return bad
             px, py = x["p"], y["p"]
             if isinstance(px, dict) and px.get("af"):
                 return "op %d %s: the returned track has analytical features %s, the model's has none" % (k, op, px["af"])
-            same = (px == py) or (isinstance(px, dict) and isinstance(py, dict) and px["path"] == py["path"] and px["xy"] == py["xy"])
-            if same and x["label"] == y["label"]:
+            agree = (px == py) or (isinstance(px, dict) and isinstance(py, dict) and px["path"] == py["path"] and px["xy"] == py["xy"])
+            if agree and x["label"] == y["label"]:
                 continue
-            # a different answer is legal only where the property leaves freedom (several optimal walks, or a search
-            # that was stopped before the node was settled): there the implementation's path is validated by the oracle
-            if edges is None:
-                edges = nc.expand(case)
-                d = nc.floyd_warshall(n, edges)
-            s0, t0, c0 = last if last else (None, None, None)
+            if not last:
+                return bad
+            edges, d = dist()
+            s0, t0, c0 = last
             t = idx(op[2]) if op[0] == "P" else idx(op[1])
-            if last and isinstance(px, dict) and isinstance(py, dict) and s0 != t and d[s0][t] is not None:
-                complete = (t0 is None or t0 == t) and within(d[s0][t], c0, fl)
-                msg, total = self.check_route(case, edges, s0, t, px)
-                if msg is None and x["label"] != "none" and same(Fraction(x["label"]), total, fl):
-                    if not complete:
-                        continue
-                    if same(total, d[s0][t], fl) and (fl or x["label"] == y["label"]) and optimal_walks(n, edges, d, s0, t, fl=fl) > 1:
-                        continue
-            return "op %d %s: impl=%s model=%s" % (k, op, x, y)
+            if s0 == t or d[s0][t] is None:
+                return bad
+            complete = (t0 is None or t0 == t) and within(d[s0][t], c0, fl)
+            if px == "none":
+                if complete:
+                    return bad
+                continue
+            if not isinstance(px, dict):
+                return bad
+            msg, total = self.check_route(case, edges, s0, t, px)
+            if msg is not None or x["label"] == "none" or not same(Fraction(x["label"]), total, fl):
+                return bad
+            if not complete:
+                continue
+            if same(total, d[s0][t], fl) and (fl or x["label"] == y["label"]) and optimal_walks(n, edges, d, s0, t, fl=fl) > 1:
+                continue
+            return bad
         if impl_out["dict"] != model_out["dict"]:
-            return "output_dict: impl=%s model=%s" % (impl_out["dict"], model_out["dict"])
+            bad = "output_dict: impl=%s model=%s" % (impl_out["dict"], model_out["dict"])
+            edges, d = dist()
+            A = {(e[0], e[1]): e[2] for e in impl_out["dict"]}
+            B = {(e[0], e[1]): e[2] for e in model_out["dict"]}
+            free = set()
+            for op in ops:
+                if op[0] != "B" and op[4] and op[2] != "-":
+                    s0, t0 = idx(op[1]), idx(op[2])
+                    if d[s0][t0] is not None:
+                        free |= {(s0, v) for v in range(n) if d[s0][v] is not None and same(d[s0][v], d[s0][t0], fl)}
+            for key, v in A.items():
+                if not (0 <= key[0] < n and 0 <= key[1] < n) or d[key[0]][key[1]] is None or not same(Fraction(v), d[key[0]][key[1]], fl):
+                    return bad
+            if any(key not in free for key in set(A) ^ set(B)):
+                return bad
         return None
 
     # ---------------------------------------------------------------- oracle
